@@ -481,12 +481,32 @@ struct Run {
                     // exact size at the end, native layout; the array may start `skew` elements into the allocation, so that
                     // its address is aligned for its element type only (a window into a larger sample buffer)
                     size_t skew = (size_t) clampl(it.arg(5), 0, 7);
-                    char *base = (char *) malloc((cnt + skew) * sz);
+                    // arg 6: the source is a constant table (calibration data in flash / .rodata): read-only pages, array flush
+                    // against the end of the mapping
+                    bool ro = it.arg(6) != 0 && cnt > 0;
+                    size_t bytes = (cnt + skew) * sz, maplen = 0;
+                    char *base;
+                    if (ro) {
+                        maplen = (bytes + 4095) / 4096 * 4096;
+                        char *m = (char *) mmap(nullptr, maplen, PROT_READ | PROT_WRITE, MAP_PRIVATE | MAP_ANONYMOUS, -1, 0);
+                        if (m == MAP_FAILED) {
+                            ro = false;
+                            base = (char *) malloc(bytes);
+                        } else {
+                            base = m + (maplen - bytes);
+                        }
+                    } else {
+                        base = (char *) malloc(bytes);
+                    }
                     char *arr = base + skew * sz;
                     if (skew) COUNT("probe_array_source_not_16_byte_aligned");
                     for (size_t j = 0; j < cnt; j++) {
                         bits[j] = elem_bits(seed, j, et);
                         memcpy(arr + j * sz, &bits[j], sz);   // little-endian host: low bytes first (recorded as an assumption)
+                    }
+                    if (ro) {
+                        mprotect(base - (maplen - bytes), maplen, PROT_READ);
+                        COUNT("probe_array_source_read_only");
                     }
                     scpi_array_format_t f = (scpi_array_format_t) fmtv;
                     switch (et) {
@@ -501,7 +521,10 @@ struct Run {
                         case E_F32: SCPI_ResultArrayFloat(c, (float *) arr, cnt, f); break;
                         default: SCPI_ResultArrayDouble(c, (double *) arr, cnt, f); break;
                     }
-                    free(base);
+                    if (ro)
+                        munmap(base - (maplen - bytes), maplen);
+                    else
+                        free(base);
                     if (fmtv == 0) {
                         // ASCII: every element is an item of its own
                         std::string delta = w.out.substr(ob);
@@ -864,7 +887,7 @@ void gen_item(Rng &r, Plan &p, bool c17, bool misuse) {
             long f = c17 ? r.range(1, 2) : r.range(0, 2);
             if (c17 && r.chance(1, 8)) f = 0;
             if (!c17 && f == 0 && cnt > 6) cnt = r.range(0, 6);
-            p.ops.push_back(Op("it", {kind, (long) r.below(E_NTYPES), f, cnt, (long) r.below(1000000), r.chance(1, 3) ? r.range(1, 7) : 0}));
+            p.ops.push_back(Op("it", {kind, (long) r.below(E_NTYPES), f, cnt, (long) r.below(1000000), r.chance(1, 3) ? r.range(1, 7) : 0, r.chance(1, 5) ? 1L : 0L}));
             break;
         }
         case IT_HEADER: {
@@ -981,7 +1004,7 @@ const Property C17 = {
     gen_c17,
     exec_c17,
     {"arrays_normal", "arrays_swapped", "arrays_ascii", "blocks_streamed", "probe_zero_length_piece", "fault_overlength_block_data", "probe_block_left_incomplete",
-     "probe_empty_binary_array", "probe_three_digit_block_length", "probe_header_nine_digits", "block_headers_only", "probe_data_after_complete_block", "probe_block_of_64k_or_more", "probe_array_of_nearly_1e9_bytes", "probe_array_source_not_16_byte_aligned", "fault_second_context_served_inside_write_callback"},
+     "probe_empty_binary_array", "probe_three_digit_block_length", "probe_header_nine_digits", "block_headers_only", "probe_data_after_complete_block", "probe_block_of_64k_or_more", "probe_array_of_nearly_1e9_bytes", "probe_array_source_not_16_byte_aligned", "probe_array_source_read_only", "fault_second_context_served_inside_write_callback"},
     "handler scripts emitting arrays of all ten element types in NORMAL/SWAPPED/ASCII (0..300 elements, boundary values), blocks one-shot and streamed with seeded piece "
     "sizes incl. zero-length pieces, incomplete and over-length data at any point, header-only calls up to 10^9-1, items after complete/incomplete blocks; every API call's "
     "bytes are compared with an independent shift-based encoder, over-length data must be refused. distinct_nontrivial = distinct canonical trace hashes.",
